@@ -83,6 +83,9 @@ fn main() {
         let (_, store, g) = graph_cache.as_ref().unwrap();
         let mut r = Rng::for_case(args.seed, c);
         let mut cx = Gen::new(&mut r, g, false);
+        if let Ok(l) = std::env::var("C01_LEVEL") {
+            cx.level = l.parse().unwrap();
+        }
         let q = cx.gen_query();
         let feats = cx.features.clone();
         let text = render_query(&q);
